@@ -73,6 +73,7 @@ func encode39(c C39Case) (bc barcode.Barcode, err error, pv any) {
 
 // checkC39 returns whether the input was accepted.
 func checkC39(t TB, c C39Case) bool {
+	noteCase("C07", "code39-93", c)
 	const P, K = "C07", "code39-93"
 	bc, err, pv := encode39(c)
 	if pv != nil {
@@ -88,6 +89,7 @@ func checkC39(t TB, c C39Case) bool {
 	if rep == 0 {
 		failf(t, P, K, c, "text outside the alphabet accepted")
 	}
+	disturb(fmt.Sprintf("code%d", c.Sym))
 	m, merr := modules1D(bc)
 	if merr != nil {
 		failf(t, P, K, c, "%v", merr)
@@ -225,6 +227,7 @@ func genC39(t *rapid.T) C39Case {
 }
 
 func TestC07Rapid(t *testing.T) {
+	foreignWarmup("code39", "code93")
 	st := NewStats("C07", "rapid")
 	runRapid(t, st, func(rt *rapid.T) {
 		c := genC39(rt)
